@@ -12,6 +12,7 @@ import (
 type vCase struct {
 	Harness string      `json:"harness"`
 	Vector  []vVecEntry `json:"vector"`
+	Realtime bool       `json:"realtime"`
 }
 
 type vOut struct {
@@ -28,6 +29,7 @@ func vRunCase(c vCase) (out vOut) {
 		return vOut{Outcome: "error", Msg: "unknown harness " + c.Harness}
 	}
 	vVec, vPos, vObs, vCovers = c.Vector, 0, nil, nil
+	vRealtime = c.Realtime
 	defer func() {
 		out.Obs, out.Covers = vObs, vCovers
 		if r := recover(); r != nil {
